@@ -33,7 +33,7 @@ class SymVec(AbsVal):
             return Rat.atom(("idx", self.name, to_rat(idx)))
         raise AnalysisError(f"SymVec index {idx!r}")
 
-    def av_ext(self, name, args, kwargs):
+    def av_ext(self, name, args, kwargs, interp=None):
         if name in ("np.asarray", "np.array"):
             return self
         return NotImplemented
